@@ -686,31 +686,40 @@ def b_range(ex, *a):
 
 
 def range_diff_list(ex, v):
-    """list(set(range(lo, hi)).difference(xs)) for xs a concrete-length list of ints that is sorted ascending and duplicate free
-    with lo == xs[0], hi == xs[-1] + 1: the gaps between consecutive members, in ascending order (iteration order of a set of
-    small ints is ascending in CPython; the R record sorts it anyway)."""
+    """list(set(range(lo, hi)).difference(xs)) for a concrete-length list xs of (symbolic) ints, in ascending order:
+    the gaps of [lo, hi) left by the members (iteration order of a set of small ints is ascending in CPython; the R record
+    sorts the exclusions anyway)."""
     xs = ops.iter_concrete(ex, v.xs)
-    if not xs:
-        raise Unsupported("range difference with an empty member list")
-    pre = [zbool(unwrap_bool(ops.compare(ex, "==", v.lo, xs[0]))), zbool(unwrap_bool(ops.compare(ex, "==", v.hi, ops.binop(ex, "+", xs[-1], 1))))]
-    pre += [zbool(unwrap_bool(ops.compare(ex, "<=", p, q))) for p, q in zip(xs, xs[1:])]
-    ex.p.solver.push()
-    ex.p.solver.add(z3.Not(z3.And(*pre)))
-    okp = ex.p.solver.check() == z3.unsat
-    ex.p.solver.pop()
-    if not okp:
-        raise Unsupported("set(range(..)).difference(xs): xs not provably sorted with the range spanning exactly xs[0]..xs[-1]")
+    ys = b_sorted(ex, SeqV.of("list", xs)).concrete_items() if xs else []
+    lo, hi = v.lo, v.hi
+
+    def clip_max(a, b):
+        c = ops.compare(ex, ">=", a, b)
+        return (a if c else b) if isinstance(c, bool) else ops.ite(ex, unwrap_bool(c), a, b)
+
+    def clip_min(a, b):
+        c = ops.compare(ex, "<=", a, b)
+        return (a if c else b) if isinstance(c, bool) else ops.ite(ex, unwrap_bool(c), a, b)
+
+    bounds = []  # half-open gaps [a, b)
+    prev = lo
+    for y in ys:
+        bounds.append((prev, y))
+        prev = clip_max(prev, ops.binop(ex, "+", y, 1))
+    bounds.append((prev, hi))
     segs = []
-    for p, q in zip(xs, xs[1:]):
-        gap = ops.binop(ex, "-", ops.binop(ex, "-", q, p), 1)
-        if isinstance(gap, int):
-            segs.append(Lit([ops.binop(ex, "+", p, 1 + j) for j in range(max(gap, 0))]))
+    for a, b in bounds:
+        a2 = clip_max(a, lo)
+        b2 = clip_min(b, hi)
+        n = ops.binop(ex, "-", b2, a2)
+        if isinstance(n, int):
+            segs.append(Lit([ops.binop(ex, "+", a2, j) for j in range(max(n, 0))]))
         else:
-            gt = z3.simplify(z3.If(term(gap, "int") < 0, 0, term(gap, "int")))
-            segs.append(Blk(gt, lambda j, p=p: ops.binop(ex, "+", ops.binop(ex, "+", p, 1), j if isinstance(j, (int, Sym)) else Sym(j, "int"))))
+            nt = z3.simplify(z3.If(term(n, "int") < 0, 0, term(n, "int")))
+            segs.append(Blk(nt, lambda j, a2=a2: ops.binop(ex, "+", a2, j if isinstance(j, (int, Sym)) else Sym(j, "int"))))
     r = SeqV("list", segs)
     r.ascending = True
-    used("set(range(a, b+1)).difference(sorted members a..b): the gaps between consecutive members")
+    used("set(range(a, b)).difference(xs): the gaps of [a, b) left by the sorted members")
     return r
 
 
